@@ -271,6 +271,13 @@ impl<'a, 'tcx> Cx<'a, 'tcx> {
             }
             _ => {}
         }
+        // pointers to statics: emit the static's path (e.g. ring::signature::ED25519)
+        if let Const::Val(ConstValue::Scalar(rustc_middle::mir::interpret::Scalar::Ptr(ptr, _)), _) = c {
+            let aid = ptr.provenance.alloc_id();
+            if let Some(rustc_middle::mir::interpret::GlobalAlloc::Static(sd)) = tcx.try_get_global_alloc(aid) {
+                o.push(("static", s(tcx.def_path_str(sd))));
+            }
+        }
         if let Const::Unevaluated(u, _) = c {
             o.push(("uneval", s(tcx.def_path_str(u.def))));
         }
